@@ -84,6 +84,10 @@ class SQLRepo:
             _LOGGER.debug(emsg, path=filename)
             return None
 
+    def get_file_names(self) -> list[str]:
+        """Returns the paths of all zorg files that are in the repo."""
+        return list(self._session.exec(select(sql.Page.path)).all())
+
     def get_notes_by_query(self, query: Optional[WhereOrFilter]) -> list[Note]:
         """Get note(s) from DB by using a query."""
         select_of_note = to_sql_select(query, self._session)
